@@ -257,7 +257,9 @@ func (mut *GenericMutableMap[M, T]) IterRange(ctx context.Context, rng Range) (M
 	iter := &mutableMapIter[val.Tuple, val.Tuple, *val.TupleDesc]{
 		memory: memIter,
 		prolly: treeIter,
-		order:  rng.Desc,
+		// |rng.Desc| may describe only a prefix of the key (see PrefixRange),
+		// pending edits and tree entries must be merged on the full key.
+		order: mut.keyDesc,
 	}
 
 	return filteredIter{iter: iter, rng: rng}, err
